@@ -23,7 +23,10 @@ SHARD = 120
 RULE = ('case = one column (interval / interval-numpy / set-valued / attribute-like) x a list of object '
         'subsets (each an intention_i call; all non-empty subsets for <= 6 rows) x every description over the '
         'value grid plus the empty one (each an extension_i call under the case base set) x to_bin_attr_extents '
-        'x n_bin_attrs; plus a mutate-then-requery stream (structure built on a first column and queried, data '
+        'x n_bin_attrs; descriptions include the half-bounded (a, inf), (-inf, b) and (-inf, inf), cells may have '
+        'infinite end points (encoded as +-2^62, an order embedding); a third of the cases mutate, in place, the '
+        'very list / set objects handed to the constructor or the data setter before querying (input aliasing); '
+        'plus a mutate-then-requery stream (structure built on a first column and queried, data '
         'replaced in place through the public data setter, then the whole bundle); non-trivial = column not constant, (interval: has a proper interval with left != right), '
         'base set given and not a sorted prefix')
 EXHAUSTIVE = {'thorough': 'every interval column of length <= 3 over a 3-value grid (points and proper intervals), '
@@ -37,10 +40,24 @@ NAME = 'p'
 
 # ------------------------------------------------------------------ building the structure
 
+# +-infinity: in the cases and in Coq an infinite end point is the integer +-INF, above every
+# finite grid value (|scaled value| < 2**45): an order embedding of the extended reals a case
+# uses into Z (the model only compares end points and takes min / max, see C13_order_invariance)
+INF = 2 ** 62
+
+
+def to_float(x, s):
+    if x >= INF:
+        return float('inf')
+    if x <= -INF:
+        return float('-inf')
+    return x / s
+
+
 def _cell(r, s):
     if r[0] == 'num':
-        return r[1] / s
-    seq = [x / s for x in r[1]]
+        return to_float(r[1], s)
+    seq = [to_float(x, s) for x in r[1]]
     return tuple(seq) if (len(r) > 2 and r[2] == 'tuple') else list(seq)
 
 
@@ -59,10 +76,32 @@ def cells(kind, raw, scale):
     return [(bool(v) if isinstance(v, bool) else v) for v in raw]
 
 
-def build_ps(kind, raw, scale):
+def build_ps(kind, raw, scale, alias=False):
     from fcapy.mvcontext import pattern_structure as PS
     cls = {'interval': PS.IntervalPS, 'interval_np': PS.IntervalNumpyPS, 'set': PS.SetPS, 'attr': PS.AttributePS}
-    return cls[kind](cells(kind, raw, scale), name=NAME)
+    handed = cells(kind, raw, scale)
+    ps = cls[kind](handed, name=NAME)
+    if alias:
+        scramble(handed)       # the structure must have copied what it was given
+    return ps
+
+
+def scramble(handed):
+    """Mutate, in place, the very objects that were handed to a constructor / data setter: inner
+    mutable cells first (lists, sets), then the outer list (cells replaced, rows appended, cleared)."""
+    for i, cell in enumerate(list(handed)):
+        if isinstance(cell, list):
+            cell.reverse()
+            cell.append(99.0)
+        elif isinstance(cell, set):
+            cell.clear()
+            cell.add(77)
+    for i in range(len(handed)):
+        v = handed[i]
+        handed[i] = (not v) if isinstance(v, bool) else handed[(i + 1) % len(handed)]
+    handed.append(handed[0] if handed else 0)
+    if len(handed) % 2:
+        handed.clear()
 
 
 def warm_up(ps, n):
@@ -83,6 +122,9 @@ def _preload():
 
 
 def _unscale(x, s):
+    import math
+    if math.isinf(float(x)):
+        return INF if float(x) > 0 else -INF
     f = Fraction(float(x)) * s
     if f.denominator != 1:
         raise ValueError('off-grid number %r' % (x,))
@@ -105,8 +147,8 @@ def desc_to_py(kind, d, s):
         if d is None:
             return None
         if isinstance(d, dict):
-            return d['num'] / s
-        return (d[0] / s, d[1] / s)
+            return to_float(d['num'], s)
+        return (to_float(d[0], s), to_float(d[1], s))
     if kind == 'set':
         return None if d is None else set(d)
     return bool(d)
@@ -148,11 +190,14 @@ def bundle(kind, case):
     s = case.get('scale', 1)
     if case.get('raw_before') is not None:
         # mutate-then-requery: build on a first column, query it, replace the data in place
-        ps = build_ps(kind, case['raw_before'], s)
+        ps = build_ps(kind, case['raw_before'], s, case.get('alias'))
         warm_up(ps, len(case['raw_before']))
-        ps.data = cells(kind, case['raw'], s)
+        handed = cells(kind, case['raw'], s)
+        ps.data = handed
+        if case.get('alias'):
+            scramble(handed)
     else:
-        ps = build_ps(kind, case['raw'], s)
+        ps = build_ps(kind, case['raw'], s, case.get('alias'))
     # data after _transform_data
     if kind in ('interval', 'interval_np'):
         data = [[_unscale(l, s), _unscale(r, s)] for l, r in canon(ps.data)]
@@ -170,7 +215,7 @@ def bundle(kind, case):
         allowed = set()
         for r in case['raw']:
             for x in ([r[1]] if r[0] == 'num' else r[1]):
-                allowed.add(struct.pack('>d', x / s))
+                allowed.add(struct.pack('>d', to_float(x, s)))
         for A in case['subsets']:
             d = ps.intention_i(_seq_as(A, sub_as))
             if d is not None:
@@ -321,6 +366,9 @@ def stats(case):
         bk = 'unsorted'
     return {'kind': case['kind'], 'rows': len(case['raw']), 'base': bk, 'base_as': case.get('base_as', 'list'),
             'sub_as': case.get('sub_as', 'list'), 'origin': case.get('origin', ''), 'legal': legal(case),
+            'alias_probe': bool(case.get('alias')),
+            'infinite': any(abs(x) >= INF for r in case['raw'] if case['kind'].startswith('interval')
+                            for x in ([r[1]] if r[0] == 'num' else r[1])),
             'grid': ('fine 2^-30' if case.get('scale', 1) == 2 ** 30 else
                      'big ints' if any(abs(x) >= 2 ** 24 for r in case['raw'] if case['kind'].startswith('interval')
                                        for x in ([r[1]] if r[0] == 'num' else r[1])) else 'small'),
@@ -332,6 +380,14 @@ def interval_descs(grid, pure):
     for a in grid:
         for b in grid:
             ds.append([a, b])            # includes a > b (covers nothing unless an improper cell exists)
+    # half-bounded and unbounded descriptions (what generators_to_description and the premises of
+    # a decision lattice produce)
+    for a in grid:
+        if abs(a) < INF:
+            ds.append([a, INF])
+            ds.append([-INF, a])
+    ds.append([-INF, INF])
+    ds.append([INF, -INF])
     cands = list(ds)
     if pure:
         ds = ds + [{'num': a} for a in grid]
@@ -454,12 +510,24 @@ def random_interval_raw(rng, n, grid, illegal=False):
                 raw.append(['seq', [lo, hi], rng.choice(['tuple', 'list'])])
         else:
             raw.append(['seq', [lo, hi], rng.choice(['tuple', 'list'])])
+    if rng.random() < 0.15:            # cells with an infinite end point
+        for _ in range(rng.randint(1, 2)):
+            i = rng.randrange(n)
+            lo = grid[0]
+            raw[i] = rng.choice([['seq', [-INF, rng.choice(grid)], 'tuple'], ['seq', [rng.choice(grid), INF], 'tuple'],
+                                 ['seq', [-INF, INF], 'list'], ['num', INF], ['num', -INF]])
     if illegal:
         raw[rng.randrange(n)] = ['seq', rng.choice([[], [grid[0], grid[0], grid[-1]]]), 'list']
     return raw
 
 
 def random_case(rng, max_rows):
+    c = _random_case(rng, max_rows)
+    c['alias'] = rng.random() < 0.35
+    return c
+
+
+def _random_case(rng, max_rows):
     kind = rng.choice(['interval', 'interval_np', 'interval_np', 'set', 'attr'])
     n = rng.randint(1, max_rows)
     subsets = subsets_for(rng, n)
@@ -472,6 +540,8 @@ def random_case(rng, max_rows):
             g = rng.randint(1, 5)
             grid = sorted(rng.sample(range(-6 * scale, 6 * scale + 1), g))
         raw = random_interval_raw(rng, n, grid, illegal=rng.random() < 0.03)
+        grid = sorted(set(grid) | {x for r in raw if r[0] == 'num' or len(r[1]) in (1, 2)
+                                   for x in ([r[1]] if r[0] == 'num' else r[1]) if abs(x) >= INF})
         sub_as = rng.choice(['list', 'list', 'array', 'tuple']) if kind == 'interval_np' else \
             rng.choice(['list', 'tuple'])
         base_as = rng.choice(['list', 'array', 'array', 'tuple'])
@@ -501,9 +571,10 @@ def random_case(rng, max_rows):
                          rng.choice(['list', 'array', 'tuple']), 'random')
     p = rng.choice([0.0, 0.2, 0.5, 0.8, 1.0])
     raw = []
+    plain = rng.random() < 0.5           # a plain list of bools, as most callers pass
     for _ in range(n):
         v = rng.random() < p
-        raw.append(rng.choice([v, int(v), 2 * int(v)]))
+        raw.append(v if plain else rng.choice([v, int(v), 2 * int(v)]))
     return make_case(kind, raw, 1, subsets, base, None, rng.choice(['list', 'tuple']),
                      rng.choice(['list', 'array', 'tuple']), 'random')
 
@@ -545,8 +616,8 @@ def generate(rng, tier):
         cases += ex
         n_rand, rows = 9000, 8
     else:
-        cases += rng.sample(ex, 1200)
-        n_rand, rows = 2000, 6
+        cases += rng.sample(ex, 1000)
+        n_rand, rows = 1700, 6
     for _ in range(n_rand):
         cases.append(random_case(rng, rows))
     # mutate-then-requery: a second column of the same kind and length set through `ps.data = ...`
@@ -621,6 +692,10 @@ def shrink(case):
     if case.get('raw_before') is not None:
         c = dict(case)
         c['raw_before'] = None
+        out.append(c)
+    if case.get('alias'):
+        c = dict(case)
+        c['alias'] = False
         out.append(c)
     if case.get('base_as') != 'list' or case.get('sub_as') != 'list':
         c = dict(case)
